@@ -107,11 +107,23 @@ impl<'a> Tape<'a> {
         let ascii_only = self.below(3) == 0;
         // characters that text-handling code likes to treat specially: byte order mark, NUL, no-break space, zero-width
         // space, replacement character, line separators, the first / last scalars of each encoded length
-        const SPECIAL: [char; 16] = [
+        const SPECIAL: [char; 22] = [
             '\u{feff}', '\0', '\u{a0}', '\u{200b}', '\u{fffd}', '\u{2028}', '\u{85}', '\u{7f}', '\u{80}', '\u{7ff}', '\u{800}', '\u{ffff}', '\u{10000}', '\u{10ffff}', '\u{d7ff}',
-            '\u{e000}',
+            '\u{e000}', '\r', '\n', '\t', ' ', '"', '\\',
         ];
-        let special_mode = self.below(7); // 0: special first character, 1: specials sprinkled, 6: literal tape octets, else none
+        let special_mode = self.below(8); // 0: special first character, 1: specials sprinkled, 6: literal tape octets, 7: special ending (CR LF, NUL, blank ...), else none
+        if special_mode == 7 && len >= 2 {
+            let tail: &str = ["\r\n", "\n", "\r", "\0", " ", "\t", "\n\r", "\u{feff}"][self.below(8)];
+            if tail.len() <= len {
+                let mut head = String::new();
+                let n = len - tail.len();
+                for _ in 0..n {
+                    head.push((0x20 + self.below(0x5f) as u8) as char);
+                }
+                head.push_str(tail);
+                return head;
+            }
+        }
         if special_mode == 6 {
             // the tape octets themselves when they are valid UTF-8 (else their low 7 bits): lets a coverage-guided
             // fuzzer, which learns compared literals, place exact strings
@@ -493,8 +505,9 @@ pub fn gen_record_opt(t: &mut Tape, w: &mut Vec<u8>, allow_bad_len: bool) -> Rec
         payload.truncate(MAX_PAYLOAD);
     }
     if t.chance(10) && !payload.is_empty() {
-        // corrupt an octet (invalid UTF-8 / bad enumerated code)
-        let i = t.below(payload.len());
+        // corrupt an octet (invalid UTF-8 / bad enumerated code); half of the time within the last few octets, where
+        // word-at-a-time validation stops looking
+        let i = if t.chance(50) { payload.len() - 1 - t.below(payload.len().min(8)) } else { t.below(payload.len()) };
         payload[i] = 0xff - (t.byte() & 0x3f);
     }
     let true_len = 6 + payload.len();
